@@ -113,6 +113,16 @@ M = [
  ("c04_propagate_sensor_term_sign", "pyins/error_model.py", "        x[i + 1] = Phi[i].dot(x[i]) + delta_sensor[i] * dt[i]", "        x[i + 1] = Phi[i].dot(x[i]) - delta_sensor[i] * dt[i]", ["C04"], "violation"),
  ("c04_propagate_initial_error_not_transformed", "pyins/error_model.py", "    x0 = error_model.transform_to_internal(trajectory.iloc[0]) @ pva_error.values", "    x0 = error_model.transform_to_internal(trajectory.iloc[-1]) @ pva_error.values", ["C04"], "violation"),
  ("c04_propagate_trapezoid_rewritten", "pyins/error_model.py", "    Phi = 0.5 * (Fi[1:] + Fi[:-1]) * dt.reshape(-1, 1, 1)", "    Phi = (0.5 * Fi[1:] + 0.5 * Fi[:-1]) * dt.reshape(-1, 1, 1)", ["C04"], "quiet-or-drift"),
+ # ---- fifth round: C01 (StrapdownStep: consistency of the one-step map, convergence)
+ ("step_coriolis_once", "pyins/_numba_integrate.py", "        velocity_n[j + 1, 0] = V1 + dv1 + (- (chi2 + Omega2) * V3\n                                           + (chi3 + Omega3) * V2",
+  "        velocity_n[j + 1, 0] = V1 + dv1 + (- (chi2 + Omega2) * V3\n                                           + chi3 * V2", ["C01"], "violation"),
+ ("step_rn_for_re", "pyins/_numba_integrate.py", "        V3 = 0.5 * (V3 + velocity_n[j + 1, 2])\n        rho1 = V2 / re\n        rho2 = -V1 / rn", "        V3 = 0.5 * (V3 + velocity_n[j + 1, 2])\n        rho1 = V2 / re\n        rho2 = -V1 / re", ["C01"], "violation"),
+ ("step_lon_without_cos", "pyins/_numba_integrate.py", "transform.RAD_TO_DEG * rho1 / cos_lat * dt", "transform.RAD_TO_DEG * rho1 * dt", ["C01"], "violation"),
+ ("step_frame_rotation_sign", "pyins/_numba_integrate.py", "        xi[2] = -chi3 * dt", "        xi[2] = chi3 * dt", ["C01"], "violation"),
+ ("step_gravity_at_start_altitude", "pyins/_numba_integrate.py", "gravity(lat, alt - 0.5 * V3 * dt)", "gravity(lat, alt)", ["C01"], "quiet-or-drift"),   # a second-order term: still consistent, still convergent
+ ("step_position_from_start_velocity", "pyins/_numba_integrate.py", "        V1 = 0.5 * (V1 + velocity_n[j + 1, 0])\n        V2 = 0.5 * (V2 + velocity_n[j + 1, 1])\n        V3 = 0.5 * (V3 + velocity_n[j + 1, 2])\n", "", ["C01"], "quiet-or-drift"),   # Euler instead of trapezoid: first order, but converges - C01 does not state an order
+ ("step_sculling_half_dropped", "pyins/_numba_integrate.py", "                                           - 0.5 * (chi2 * dv3 - chi3 * dv2)\n", "", ["C01"], "quiet-or-drift"),
+ ("step_gravity_height_factor", "pyins/_numba_integrate.py", "(1 - 2 * alt / earth.A))", "(1 - alt / earth.A))", ["C01"], "violation"),   # the kernel's own copy of gravity disagrees with the Earth model above sea level
 ]
 
 
